@@ -180,12 +180,14 @@ def playback(root, pkg, harness, module, timeout_s=2400):
     except subprocess.TimeoutExpired:
         return {'error': 'concrete playback timed out after %d s' % timeout_s}
     out = p.stdout
-    m = re.search(r'```\n(.*?#\[test\].*?)```', out, re.S)
-    if not m:
-        m = re.search(r'(/// Test generated for harness.*?\n}\n)', out, re.S)
-    if not m:
+    blocks = re.findall(r'```\n(.*?#\[test\].*?)```', out, re.S)
+    if not blocks:
+        blocks = re.findall(r'(/// Test generated for harness.*?\n}\n)', out, re.S)
+    if not blocks:
         return {'error': 'no concrete test printed', 'tail': out[-2000:]}
-    test_src = m.group(1)
+    # Kani prints one test per failed check and one per cover property: take a failing assertion / panic, not a cover
+    failing = [b for b in blocks if not re.search(r'Check for `cover`', b)]
+    test_src = (failing or blocks)[0]
     # the harness module is referenced by #[path]; make a private copy with the test appended
     _, src = MODULES[module]
     hp = os.path.join(VERIF, 'kani', module)
